@@ -50,6 +50,8 @@ theorem foldl_pres {α β : Type} (π : Stack → β) (f : Stack → α → Stac
 @[simp] theorem base_with_flushLog (s : Stack) (x : List (Dest × List SDEntry)) : base { s with flushLog := x } = base s := rfl
 @[simp] theorem base_with_refreshLog (s : Stack) (x : List (Addr × SvcKey × Nat × Nat)) : base { s with refreshLog := x } = base s := rfl
 @[simp] theorem base_with_armLog (s : Stack) (x : List (Cb × Nat × Nat)) : base { s with armLog := x } = base s := rfl
+@[simp] theorem base_with_subMarks (s : Stack) (x : List (Option Nat × Nat)) : base { s with subMarks := x } = base s := rfl
+@[simp] theorem base_markRound (s : Stack) (n : Nat) : base (s.markRound n) = base s := rfl
 @[simp] theorem base_with_found_refreshLog (s : Stack) (x : TStore SvcKey) (y : List (Addr × SvcKey × Nat × Nat)) : base { s with found := x, refreshLog := y } = base s := rfl
 @[simp] theorem base_with_subLog (s : Stack) (x : List (Addr × Nat × List Eventgroup)) : base { s with subLog := x } = base s := rfl
 @[simp] theorem base_with_findLog (s : Stack) (x : List (Nat × Nat)) : base { s with findLog := x } = base s := rfl
